@@ -138,6 +138,7 @@ func (r *RoundRobin) nextServer() (*server, error) {
 			if r.currentWeight <= 0 {
 				r.currentWeight = maxWeight
 				if r.currentWeight == 0 {
+					r.resetIterator()
 					return nil, errors.New("all servers have 0 weight")
 				}
 			}
